@@ -222,6 +222,12 @@ func C17handle(p *load.Program, run *report.Run) {
 							check(e, depth+1)
 						}
 					}
+				case *ssa.Const:
+					// with named results the error returns cannot be told from the successes here: a nil handle
+					// is no handle
+					if !t.IsNil() {
+						bad = fmt.Sprintf("the returned handle is not a fresh allocation (%T at %s)", v, p.Rel(r.Pos()))
+					}
 				default:
 					if der[v] {
 						bad = "the returned handle is an address inside memory obtained from the pool (" + p.Rel(r.Pos()) + ")"
